@@ -61,6 +61,16 @@ CHECKS = {
          "For ldap, ftp, smtp, telnet, redis, memcached, http and tftp, scripted sessions stamped with unique tokens and distinct client addresses are interleaved at request/response granularity (exhaustive up to the bound in thorough, sampled in quick), run on parallel goroutines, and run after histories of complete/aborted earlier sessions, all against one shared service instance as in production.",
          "Only timestamps, session ids, token-derived digests and map-ordered LDAP attribute lists are masked. The reference is the session's own solo run, so any deterministic behaviour of the service is accepted.",
          "DESIGN.md §5 C03"),
+ "C11": ("exploration",
+         "runtime monitoring: read-back of the real RealPath/ChangeDir/Cwd over all path strings up to 5 components (exhaustive) from every reachable working directory; end-to-end FTP sessions through the real dispatcher with real passive (TLS) and active data connections, sentinel-tree snapshot before/after each command sequence, scan of RETR/LIST/NLST bytes and of reported directories",
+         "Containment is observed from outside: a sentinel tree beside the root (parent, sibling, sibling sharing the root's name as prefix, marker entries no command names) must be byte-identical after every sequence, no listing or download may show its names or contents, and every reported working directory must be a clean absolute path.",
+         "Root created without symlinks. Lexical containment for the direct part. RETR never returns file content in this implementation (it seeks to the end of the file), so content leaks can only show through listings.",
+         "DESIGN.md §5 C11"),
+ "C12": ("exploration",
+         "runtime monitoring: real protocol clients (x/crypto SSH client with retrying password callback, LDAP simple binds, FTP USER/PASS) against the real dispatcher with generated credential sets; offline oracle = reference credential model (pair in set / wildcard) for outcomes, one authentication event per attempt with presented password and evaluated user, gated operations refused before login",
+         "Credential sets over the quantifier's users and passwords (size 0..3, wildcard, entry without ':') are configured into fresh service instances; attempt sequences up to length 4 with gated-operation probes around every attempt are executed; replies and events are compared with the reference model. Thorough is exhaustive for sets of size <=1 x sequences <=2.",
+         "LDAP anonymous bind = success without login. What gated operations do after a successful login is not judged.",
+         "DESIGN.md §5 C12"),
 }
 
 NOT_YET = {
